@@ -422,7 +422,8 @@ fn scenario(r: &mut Report, seed: u64, k: u64) {
     // disconnect events: graceful ones promptly, abrupt ones after the heartbeat timeout
     let want_disc = results.iter().filter(|c| c.local.is_some()).count();
     let t = Instant::now();
-    let limit = if plans.iter().any(|p| !p.graceful) { Duration::from_millis(4000) } else { Duration::from_millis(2500) };
+    // (the loop ends as soon as all of them are there; the limit only matters when one is missing, and no time bound belongs to the property)
+    let limit = if plans.iter().any(|p| !p.graceful) { Duration::from_millis(10_000) } else { Duration::from_millis(8000) };
     loop {
         let n = state.log.lock().unwrap().iter().filter(|(e, _)| matches!(e, Ev::Disconnect(..))).count();
         if n >= want_disc || t.elapsed() > limit {
@@ -642,7 +643,7 @@ fn busy_heartbeat_scenario(r: &mut Report, seed: u64, k: u64) {
     let res = run_client(addr, plan, seed ^ k, Arc::new(AtomicBool::new(false)), Arc::new(AtomicBool::new(true)), move |a| st3.log.lock().unwrap().iter().any(|(e, _)| *e == Ev::Connect(a)));
     // the disconnect that follows the client's own Close
     let t = Instant::now();
-    while t.elapsed() < Duration::from_secs(3) && !state.log.lock().unwrap().iter().any(|(e, _)| matches!(e, Ev::Disconnect(_))) {
+    while t.elapsed() < Duration::from_secs(8) && !state.log.lock().unwrap().iter().any(|(e, _)| matches!(e, Ev::Disconnect(_))) {
         std::thread::sleep(Duration::from_millis(5));
     }
     ws_tx.send(()).ok();
